@@ -128,6 +128,16 @@ func (p c11) run(c *core.C, cs c11Case) {
 				c.Failf("%s reports a signer for input that does not start with the OpenPGP armor (fault %s)", name, cs.Fault)
 			}
 			c.Cover("unsigned:no-signer")
+			// a clearsigned block with foreign text in front of it: whatever the reader makes of that, what it hands
+			// out with a keyring supplied may only be the verified signed text - never the foreign text, never
+			// the block's text unverified
+			if i := bytes.Index(cs.Input, []byte("\n-----BEGIN PGP SIGNED MESSAGE-----")); i >= 0 && res.ok && len(res.paras) > 0 {
+				ok2, paras2, _, _ := c11Reference(cs.Input[i+1:], keyring)
+				if !ok2 || paras2 == nil || diffParas(res.paras, paras2) != "" {
+					c.Failf("%s accepted input that has foreign text in front of a clearsigned block and returned %d paragraph(s) that are not the verified signed text (fault %s)", name, len(res.paras), cs.Fault)
+				}
+				c.Cover("unsigned:armor-not-at-start-accepted")
+			}
 			continue
 		}
 		switch {
@@ -163,23 +173,50 @@ func (p c11) run(c *core.C, cs c11Case) {
 	// the same keyring VARIABLE, emptied / replaced in place after a successful read:
 	// the second read of the same bytes must be judged against the new content
 	if cs.Fault == "none" && refOK && armored && len(keyring) > 0 {
-		kr := append(openpgp.EntityList{}, keyring...)
-		pr, err := control.NewParagraphReader(bytes.NewReader(cs.Input), &kr)
-		if err == nil && pr.Signer() != nil {
+		open := map[string]func(kr *openpgp.EntityList) (*openpgp.Entity, error){
+			"NewParagraphReader": func(kr *openpgp.EntityList) (*openpgp.Entity, error) {
+				pr, err := control.NewParagraphReader(bytes.NewReader(cs.Input), kr)
+				if err != nil {
+					return nil, err
+				}
+				if _, err := pr.All(); err != nil {
+					return nil, err
+				}
+				return pr.Signer(), nil
+			},
+			"NewDecoder": func(kr *openpgp.EntityList) (*openpgp.Entity, error) {
+				dec, err := control.NewDecoder(bytes.NewReader(cs.Input), kr)
+				if err != nil {
+					return nil, err
+				}
+				var ps []pWrap
+				if err := dec.Decode(&ps); err != nil {
+					return nil, err
+				}
+				return dec.Signer(), nil
+			},
+		}
+		for name, fn := range open {
+			kr := append(openpgp.EntityList{}, keyring...)
+			signer, err := fn(&kr)
+			if err != nil || signer == nil {
+				continue
+			}
 			others := testKeys(1024)
 			for i := range kr {
 				kr[i] = others[2] // Mallory, never a signer in these cases
 			}
-			if refID != others[2].PrimaryKey.KeyId {
-				if pr2, err2 := control.NewParagraphReader(bytes.NewReader(cs.Input), &kr); err2 == nil {
-					c.Failf("after the keyring variable was overwritten in place with an unrelated key, the same document is still accepted (signer reported: %v)", pr2.Signer() != nil)
-				}
-				kr = kr[:0]
-				if _, err3 := control.NewParagraphReader(bytes.NewReader(cs.Input), &kr); err3 == nil {
-					c.Failf("after the keyring variable was emptied in place, the same document is still accepted")
-				}
-				c.Cover("sequence:keyring-mutated-between-reads")
+			if refID == others[2].PrimaryKey.KeyId {
+				continue
 			}
+			if s2, err2 := fn(&kr); err2 == nil {
+				c.Failf("%s: after the keyring variable was overwritten in place with an unrelated key, the same document is still accepted (signer reported: %v)", name, s2 != nil)
+			}
+			kr = kr[:0]
+			if _, err3 := fn(&kr); err3 == nil {
+				c.Failf("%s: after the keyring variable was emptied in place, the same document is still accepted", name)
+			}
+			c.Cover("sequence:keyring-mutated-between-reads")
 		}
 	}
 	c.Nontrivial()
